@@ -11,6 +11,7 @@ EXTENDS CelConv, CelRegex, FiniteSets
 
 Lit(v) == [k |-> "lit", v |-> v]
 Var(n) == [k |-> "var", n |-> n]
+MsgLit(n, fs) == [k |-> "obj", n |-> n, fs |-> fs]
 \* identifier spellings that are ordinary CEL identifiers (not reserved by CEL) but mean something to a host language or to an
 \* implementation's internals: an identifier is a name and nothing else, so each must behave exactly like "x"
 HostileIdents == {"class", "lambda", "None", "True", "def", "not", "is", "pass", "from", "with", "yield", "async", "try", "global", "raise", "assert",
@@ -198,6 +199,8 @@ Eval(e, env) ==
                            [] e.f \in {"contains", "startsWith", "endsWith"} /\ Len(e.args) = 1 -> StrFn(e.f, x, Eval(e.args[1], env))
                            [] e.f = "matches" /\ Len(e.args) = 1 -> MatchFn(x, Eval(e.args[1], env))
                            [] OTHER -> Indef)
+    \* a message literal Name{f: e, ...}: messages are not modelled, but a repeated field label is an error whatever the message is
+    [] e.k = "obj" -> (IF \E i, j \in 1..Len(e.fs) : i < j /\ e.fs[i][1] = e.fs[j][1] THEN Err ELSE Indef)
     [] e.k = "macro" ->
         (LET c == Eval(e.x, env) IN
          IF IsErr(c) THEN Err ELSE IF IsIndef(c) THEN Indef
